@@ -982,7 +982,7 @@ func (c *Conn) handleBdat(arg string) {
 		if err == nil {
 			c.lineLimitReader.LineLimit = 0
 			io.Copy(ioutil.Discard, io.LimitReader(c.text.R, int64(size)))
-			c.lineLimitReader.LineLimit = c.server.MaxLineLength
+			c.resumeLineLimit()
 		}
 	}
 
@@ -1119,7 +1119,7 @@ func (c *Conn) handleBdat(arg string) {
 		}
 
 		c.reset()
-		c.lineLimitReader.LineLimit = c.server.MaxLineLength
+		c.resumeLineLimit()
 		return
 	}
 
@@ -1127,7 +1127,7 @@ func (c *Conn) handleBdat(arg string) {
 
 	// The chunk has been read: whatever follows it, another BDAT included,
 	// is a command line again and subject to the line length limit.
-	c.lineLimitReader.LineLimit = c.server.MaxLineLength
+	c.resumeLineLimit()
 
 	if last {
 		bdatPipe.Close()
@@ -1374,6 +1374,13 @@ func (c *Conn) readLine() (string, error) {
 		return "", ErrTooLongLine
 	}
 	return line, err
+}
+
+// resumeLineLimit puts the line length limit back after a BDAT chunk has been
+// taken off the stream.
+func (c *Conn) resumeLineLimit() {
+	pending, _ := c.text.R.Peek(c.text.R.Buffered())
+	c.lineLimitReader.resume(c.server.MaxLineLength, pending)
 }
 
 func (c *Conn) reset() {
